@@ -459,8 +459,18 @@ class ParseqSuite(PipeSuite):
                 ("search:conflicts", ["--gen", "conflicts", "--count", "600", "--seed", s], {})]
 
 
+class AsyncSuite(ExecSuite):
+    name = "async"
+
+    def gens(self, tier, seed, sspec):
+        s = str(seed)
+        n = {"quick": "40", "thorough": "1500"}.get(tier, "250")
+        return [("random op sequences (dispatch/running/wait/wait_without_tl/world/world_mut/setup) on random plans, a system held inside run or jitter; pools 1,2,4,16",
+                 ["--count", n, "--seed", s], {})]
+
+
 SUITES = {"plan": PlanSuite(), "exec": ExecSuite(), "world": WorldSuite(), "sysdata": SysdataSuite(), "meta": MetaSuite(),
-          "parseq": ParseqSuite()}
+          "parseq": ParseqSuite(), "async": AsyncSuite()}
 
 
 # ----------------------------------------------------------------------------------------
